@@ -192,6 +192,31 @@ fn gen_rsize(p: &mut Prng, w: usize, db: usize, shape_w: &[u32]) -> (Option<Vec<
             }
             Some(v)
         }
+        13 => {
+            // a run of ones: 2^k - 2^j  (k > j)
+            let k = 1 + p.below(bits) as usize; // 1..=bits (k = bits means the run reaches the top)
+            let j = p.below(k as u64) as usize;
+            let mut v = vec![0u8; w];
+            for b in j..k {
+                v[b / 8] |= 1 << (b % 8);
+            }
+            Some(v)
+        }
+        14 => {
+            // digit pattern: every digit independently zero, all-ones or random
+            let mut v = vec![0u8; w];
+            for d in 0..w / db {
+                match p.below(20) {
+                    0..=5 => {}
+                    6..=14 => v[d * db..(d + 1) * db].iter_mut().for_each(|x| *x = 0xFF),
+                    _ => p.fill(&mut v[d * db..(d + 1) * db]),
+                }
+            }
+            if refint::is_zero(&v) {
+                v[0] = 0xFF;
+            }
+            Some(v)
+        }
         12 => {
             // log-uniform: bit length uniform in 1..=bits, top bit set, the rest random
             let l = 1 + p.below(bits) as usize;
@@ -325,6 +350,7 @@ fn range_call_plan(p: &mut Prng, sw: &Swarm, w: usize, db: usize) -> Vec<Plan> {
                 38 => 65 + p.below(240),
                 _ => [99, 100, 101, 127, 128, 129, 255, 256, 257, 999, 1000, 1001, 1023, 1024, 1025][p.below(15) as usize],
             };
+            let k = if w > 160 { k.min(12) } else { k };
             long_stall_used = k > 64;
             for _ in 0..k {
                 plan.push(Plan::Repeat);
@@ -371,9 +397,7 @@ fn fill_call_plan(p: &mut Prng, sw: &Swarm, w: usize, db: usize) -> Vec<Plan> {
 pub fn make_run(seed: u64, run: u64, menu: &[Box<dyn TyObj>]) -> RunSpec {
     let s = crate::prng::mix(seed, run);
     let mut p = Prng::new(s);
-    let ti = pick_type(&mut p, menu);
-    let ty = &menu[ti];
-    let (w, db, signed) = (ty.bytes(), ty.digit_bytes(), ty.signed());
+    let mut ti = pick_type(&mut p, menu);
     let mode = match p.below(40) {
         0..=13 => 1u8, // cluster run
         14..=21 => 2,  // fault-free twin of the mixed workload
@@ -381,6 +405,18 @@ pub fn make_run(seed: u64, run: u64, menu: &[Box<dyn TyObj>]) -> RunSpec {
         23 => 4,       // span probe: exact block sizes of chosen values when fibres are huge
         _ => 0,        // mixed workload with faults
     };
+    // Span probes are the only two-sided oracle for multi-digit types with 64-bit digits (no sweep can reach them and
+    // the pinned suite builds 64-bit digits with N = 1 only), so half of the span-probe runs go to those types.
+    if mode == 4 && p.chance(1, 2) {
+        let cands: Vec<usize> = (0..menu.len()).filter(|&i| menu[i].digit_bytes() == 8 && menu[i].bytes() >= 16 && menu[i].bytes() <= 160).collect();
+        if !cands.is_empty() {
+            ti = cands[p.below(cands.len() as u64) as usize];
+        }
+    }
+    let ty = &menu[ti];
+    let (w, db, signed) = (ty.bytes(), ty.digit_bytes(), ty.signed());
+    // the giants (> 1280 bits) cost up to milliseconds per call: no bisection or walking, short stalls
+    let mode = if w > 160 && mode >= 3 { 1 } else { mode };
     let faults_on = mode == 0;
     let sw = Swarm {
         fault_err: faults_on && p.chance(1, 2),
@@ -393,7 +429,7 @@ pub fn make_run(seed: u64, run: u64, menu: &[Box<dyn TyObj>]) -> RunSpec {
         dyn_rate: [0, 0, 1, 4][p.below(4) as usize],
     };
     // per-run weights over the bound shapes (swarm): a random subset is switched off
-    let mut shape_w = [6u32, 5, 5, 6, 5, 6, 14, 14, 3, 5, 6, 6, 8];
+    let mut shape_w = [6u32, 5, 5, 6, 5, 6, 14, 14, 3, 5, 6, 6, 8, 5, 7];
     for x in shape_w.iter_mut() {
         if p.chance(1, 4) {
             *x = 0;
@@ -557,7 +593,7 @@ fn cluster_op(p: &mut Prng, sw: &Swarm, w: usize, db: usize, signed: bool, shape
 
 /// bounds for a complete word-space sweep (seeded, biased to boundary shapes)
 pub fn sweep_bounds(p: &mut Prng, w: usize, db: usize, signed: bool) -> (Vec<u8>, Vec<u8>) {
-    let shape_w = [2u32, 4, 5, 8, 5, 6, 12, 12, 3, 3, 10, 8, 6];
+    let shape_w = [2u32, 4, 5, 8, 5, 6, 12, 12, 3, 3, 10, 8, 6, 4, 4];
     let (r, _) = gen_rsize(p, w, db, &shape_w);
     place(p, w, db, signed, &r)
 }
@@ -606,7 +642,7 @@ fn walk_ops(p: &mut Prng, sw: &Swarm, w: usize, db: usize, signed: bool) -> (Op,
 /// one sampler configuration whose chosen values' accepted blocks are measured by bisection
 fn span_op(p: &mut Prng, sw: &Swarm, w: usize, db: usize, signed: bool) -> Op {
     //            1  2..3 2^k 2^k+-1 digit dig-bdry q   q   2^W-1 full uniform small log
-    let weights = [0u32, 3, 4, 8, 14, 6, 5, 5, 2, 1, 6, 10, 16];
+    let weights = [0u32, 3, 4, 8, 14, 6, 5, 5, 2, 1, 6, 10, 16, 20, 28];
     let (r, shape) = gen_rsize(p, w, db, &weights);
     let (low, high_incl) = place(p, w, db, signed, &r);
     let (low, high, inclusive) = api_bounds(p, w, signed, low, high_incl);
@@ -634,7 +670,7 @@ fn span_op(p: &mut Prng, sw: &Swarm, w: usize, db: usize, signed: bool) -> Op {
         targets.sort();
         targets.dedup();
     }
-    let via = p.below(3) as u8;
+    let via = if p.chance(1, 2) { 2 } else { p.below(2) as u8 }; // the Uniform constructor is the only entry point that divides
     let dynamic = p.below(4) < sw.dyn_rate;
     Op { kind: OpKind::SpanProbe { low, high, inclusive, via, targets }, dynamic, calls: Vec::new(), shape }
 }
